@@ -369,7 +369,13 @@ func c16GenRaceSpec(g *Rng, rounds int, explicit bool, tag string) c16RaceSpec {
 			if g.Chance(75) {
 				cfgTag = fmt.Sprintf("%sr%dk%d", tag, i, k)
 			}
-			rd.Trees = append(rd.Trees, genRaceTree16(g.Fork(), explicit && (k%2 == 1), size, cfgTag, g.Chance(50), i == 0))
+			t := genRaceTree16(g.Fork(), explicit && (k%2 == 1), size, cfgTag, g.Chance(50), i == 0)
+			// mixed sets: some builds FAIL inside MakeCustomizedResMap (missing resource file, patch without target)
+			// while the others are in the middle of their strategic merges — a failing build must not disturb them
+			if (i == 0 && k > 0 && g.Chance(30)) || (i > 0 && g.Chance(12)) {
+				t.Fail = g.Pick([]string{"missing-file", "bad-patch"})
+			}
+			rd.Trees = append(rd.Trees, t)
 		}
 		spec.Rounds = append(spec.Rounds, rd)
 	}
@@ -534,6 +540,9 @@ func c16RaceSearch(r *Run, g *Rng, procs int, tier string) error {
 				}
 				for _, c := range spec.Rounds[ri].Trees[ti].Cfg {
 					r.Count("race_tree_cfg", c.Dir)
+				}
+				if f := spec.Rounds[ri].Trees[ti].Fail; f != "" {
+					r.Count("race_tree_fail", f)
 				}
 				if len(spec.Rounds[ri].Trees[ti].Cfg) == 0 {
 					r.Count("race_tree_cfg", "none")
